@@ -566,3 +566,21 @@ func blocksFrom(b *ssa.BasicBlock) []*ssa.BasicBlock {
 	dfs(b)
 	return out
 }
+
+// isParamIdx: v is parameter number idx of its function.
+func isParamIdx(v ssa.Value, idx int) bool {
+	p, ok := v.(*ssa.Parameter)
+	return ok && idx < len(p.Parent().Params) && p.Parent().Params[idx] == p
+}
+
+// fnCallingStorage: the module function (in the handler scope) that contains the call of the given storage method.
+func (cx *Ctx) fnCallingStorage(method string) *ssa.Function {
+	for _, fn := range cx.W.sortedFuncs(cx.handlerScope()) {
+		for _, c := range callsIn(fn) {
+			if storageMethod(c) == method {
+				return fn
+			}
+		}
+	}
+	return nil
+}
